@@ -1,53 +1,206 @@
-(* C06 - one diff-render keeps terminal and renderer in sync (cells of
-   display width 1).  The proof follows the code: move_cursor, output_char,
-   the column loop (induction on the fuel = remaining columns), one row with
-   its trailing trim, the row loop, then the epilogue. *)
+(* C06 - one diff-render keeps terminal and renderer in sync, for cells of
+   display width 1 AND wide cells (width 2 followed by their "" shadow cell, not
+   straddling the right edge).  The proof follows the code: move_cursor,
+   output_char, the column loop (induction on the fuel = remaining columns; the
+   invariant allows one "damaged" column at the loop position: the orphaned
+   right half of a wide glyph the terminal blanked when its left half was
+   overwritten), one row with its trailing trim, the row loop, then the epilogue. *)
 From Coq Require Import ZArith List Bool Lia.
 From PTK Require Import Lib.Sx Lib.Py Model.C06_Terminal Model.C06_Renderer Proofs.C06_TermFacts Proofs.C06_RowFacts.
 Import ListNotations.
 Open Scope Z_scope.
 
+Lemma upd_other : forall g y x v y' x', (y' <> y \/ x' <> x) -> upd g y x v y' x' = g y' x'.
+Proof.
+  intros. unfold upd. destruct ((y' =? y) && (x' =? x)) eqn:E; auto.
+  apply andb_true_iff in E. destruct E as [E1 E2]. apply Z.eqb_eq in E1. apply Z.eqb_eq in E2. lia.
+Qed.
+
+Lemma upd_same : forall g y x v, upd g y x v y x = v.
+Proof. intros. unfold upd. rewrite !Z.eqb_refl. reflexivity. Qed.
+
+(* the cell after the drawn glyph: blanked when the glyph's last column held the
+   left half of a wide glyph whose right half is now an orphan *)
+Definition dcond (g : grid) (y x w : Z) : bool :=
+  if w =? 1 then tk (g y x) =? 1 else negb (tk (g y x) =? 1) && (tk (g y (x + 1)) =? 1).
+
+Lemma put_ok : forall W t g w,
+  g <> [] -> (w = 1 \/ w = 2) -> pend t = false -> aw t = false ->
+  cx t + w <= W -> tk (tgrid t (cy t) (cx t)) <> 2 ->
+  let t' := tstep W t (TText g w) in
+  cx t' = Z.min (cx t + w) (W - 1) /\ cy t' = cy t /\ pen t' = pen t /\ aw t' = false /\ pend t' = false /\
+  cvis t' = cvis t /\ undef t' = undef t /\
+  (forall y' x', y' <> cy t \/ x' < cx t \/ cx t + w < x' -> tgrid t' y' x' = tgrid t y' x') /\
+  tgrid t' (cy t) (cx t) = mkcell g (pen t) (if w =? 1 then 0 else 1) /\
+  (w = 2 -> tgrid t' (cy t) (cx t + 1) = mkcell [] (pen t) 2) /\
+  tgrid t' (cy t) (cx t + w) =
+    (if dcond (tgrid t) (cy t) (cx t) w then mkcell [32] (tp (tgrid t (cy t) (cx t + w))) 0
+     else tgrid t (cy t) (cx t + w)).
+Proof.
+  intros W t g w Hg Hw Hp Ha Hx Hk. cbv zeta. unfold tstep. destruct g as [|g0 g']; [contradiction|].
+  set (gg := g0 :: g'). unfold put.
+  assert (E1 : ((w <? 1) || (2 <? w)) = false) by (destruct Hw; subst; reflexivity).
+  rewrite E1, Hp, Ha. cbn [andb].
+  assert (E2 : ((w =? 2) && (W - 1 <=? cx t)) = false).
+  { destruct Hw; subst; [reflexivity|]. cbn [andb Z.eqb]. apply Z.leb_gt. lia. }
+  rewrite E2.
+  set (y := cy t) in *. set (x := cx t) in *. set (G := tgrid t) in *.
+  assert (K2 : (tk (G y x) =? 2) = false) by (apply Z.eqb_neq; exact Hk).
+  destruct Hw as [-> | ->].
+  - (* narrow *)
+    change (1 =? 2) with false. change (1 =? 1) with true. cbv iota.
+    assert (CUR : forall G4 : grid,
+      cx (if x + 1 <=? W - 1 then mkterm G4 (x + 1) y (pen t) false (cvis t) false (undef t)
+          else mkterm G4 (W - 1) y (pen t) false (cvis t) false (undef t)) = Z.min (x + 1) (W - 1)).
+    { intros G4. destruct (x + 1 <=? W - 1) eqn:E; cbn [cx]; lia. }
+    assert (GR : forall G4 : grid,
+      tgrid (if x + 1 <=? W - 1 then mkterm G4 (x + 1) y (pen t) false (cvis t) false (undef t)
+          else mkterm G4 (W - 1) y (pen t) false (cvis t) false (undef t)) = G4).
+    { intros G4. destruct (x + 1 <=? W - 1); reflexivity. }
+    split; [apply CUR|].
+    split; [destruct (x + 1 <=? W - 1); reflexivity|]. split; [destruct (x + 1 <=? W - 1); reflexivity|].
+    split; [destruct (x + 1 <=? W - 1); reflexivity|]. split; [destruct (x + 1 <=? W - 1); reflexivity|].
+    split; [destruct (x + 1 <=? W - 1); reflexivity|]. split; [destruct (x + 1 <=? W - 1); reflexivity|].
+    rewrite GR. unfold dcond. change (1 =? 1) with true. cbv iota.
+    unfold boh. rewrite K2. destruct (tk (G y x) =? 1) eqn:K1.
+    + split; [intros y' x' Hx'; rewrite !upd_other by lia; reflexivity|].
+      split; [apply upd_same|]. split; [discriminate|].
+      rewrite upd_other by lia. apply upd_same.
+    + split; [intros y' x' Hx'; rewrite !upd_other by lia; reflexivity|].
+      split; [apply upd_same|]. split; [discriminate|].
+      rewrite upd_other by lia. reflexivity.
+  - (* wide *)
+    change (2 =? 2) with true. change (2 =? 1) with false. cbv iota.
+    assert (GR : forall G4 : grid,
+      tgrid (if x + 2 <=? W - 1 then mkterm G4 (x + 2) y (pen t) false (cvis t) false (undef t)
+          else mkterm G4 (W - 1) y (pen t) false (cvis t) false (undef t)) = G4).
+    { intros G4. destruct (x + 2 <=? W - 1); reflexivity. }
+    split; [destruct (x + 2 <=? W - 1) eqn:E; cbn [cx]; lia|].
+    split; [destruct (x + 2 <=? W - 1); reflexivity|]. split; [destruct (x + 2 <=? W - 1); reflexivity|].
+    split; [destruct (x + 2 <=? W - 1); reflexivity|]. split; [destruct (x + 2 <=? W - 1); reflexivity|].
+    split; [destruct (x + 2 <=? W - 1); reflexivity|]. split; [destruct (x + 2 <=? W - 1); reflexivity|].
+    rewrite GR. unfold dcond. change (2 =? 1) with false. cbv iota.
+    destruct (tk (G y x) =? 1) eqn:K1.
+    + (* left half of an old wide glyph at x: x+1 blanked first *)
+      assert (B1 : boh G y x = upd G y (x + 1) (mkcell [32] (tp (G y (x + 1))) 0))
+        by (unfold boh; rewrite K1; reflexivity).
+      rewrite B1.
+      assert (B2 : forall g1 : grid, tk (g1 y (x + 1)) = 0 -> boh g1 y (x + 1) = g1)
+        by (intros g1 E; unfold boh; rewrite E; reflexivity).
+      rewrite B2 by (rewrite upd_same; reflexivity).
+      cbn [negb andb].
+      split; [intros y' x' Hx'; rewrite !upd_other by lia; reflexivity|].
+      split; [rewrite upd_other by lia; apply upd_same|].
+      split; [intros _; apply upd_same|].
+      rewrite !upd_other by lia. reflexivity.
+    + assert (B1 : boh G y x = G) by (unfold boh; rewrite K1, K2; reflexivity).
+      rewrite B1. cbn [negb andb]. unfold boh. destruct (tk (G y (x + 1)) =? 1) eqn:K3.
+      * split; [intros y' x' Hx'; rewrite !upd_other by lia; reflexivity|].
+        split; [rewrite upd_other by lia; apply upd_same|].
+        split; [intros _; apply upd_same|].
+        rewrite !upd_other by lia. replace (x + 1 + 1) with (x + 2) by lia. apply upd_same.
+      * destruct (tk (G y (x + 1)) =? 2) eqn:K4.
+        -- split; [intros y' x' Hx'; rewrite !upd_other by lia; reflexivity|].
+           split; [rewrite upd_other by lia; apply upd_same|].
+           split; [intros _; apply upd_same|].
+           rewrite !upd_other by lia. reflexivity.
+        -- split; [intros y' x' Hx'; rewrite !upd_other by lia; reflexivity|].
+           split; [rewrite upd_other by lia; apply upd_same|].
+           split; [intros _; apply upd_same|].
+           rewrite !upd_other by lia. reflexivity.
+Qed.
+
 Section Diff.
 Variable W : Z.
 Variable tb : tabs.
 Variable pvis : Z -> Z.
+(* display width of a cell text (wcwidth); the screens of a history agree on it *)
+Variable wof : list Z -> Z.
 Hypothesis HW : 1 <= W.
 (* attributes that has_style ignores do not render on a blank *)
 Hypothesis Hpv : forall a, ahs tb a = false -> pvis (apen tb a) = pvis 0.
+Hypothesis Hw32 : wof [32] = 1.
 
 (* the pen a screen cell is displayed with: a blank in the default style
    "[transparent]" is an untouched cell, shown in the default attributes *)
 Definition cpen (c : cell) : Z := if is_transp c then 0 else apen tb (sattr tb (st c)).
 
-(* terminal cell [tc] displays screen cell [c] (modulo attributes invisible on a blank) *)
-Definition shows (tc : tcell) (c : cell) : Prop :=
-  tk tc = 0 /\ tg tc = ch c /\
-  (if str_eqb (ch c) [32] then pvis (tp tc) = pvis (cpen c) else tp tc = cpen c).
+(* terminal cell [tc] displays column x of the row [cf] (modulo attributes
+   invisible on a blank): a narrow cell, the left half of a wide cell, or the
+   right half ("shadow" cell, text "") carrying the pen of the wide cell *)
+Definition showsx (tc : tcell) (cf : Z -> cell) (x : Z) : Prop :=
+  if wd (cf x) =? 0 then tk tc = 2 /\ tg tc = [] /\ tp tc = cpen (cf (x - 1))
+  else tk tc = (if wd (cf x) =? 2 then 1 else 0) /\ tg tc = ch (cf x) /\
+       (if str_eqb (ch (cf x)) [32] then pvis (tp tc) = pvis (cpen (cf x)) else tp tc = cpen (cf x)).
 
-Definition ncell (c : cell) : Prop := wd c = 1 /\ ch c <> [].
-Definition nrow (r : row) : Prop := Forall (fun e => ncell (snd e)) r.
-Definition nscreen (s : screen) : Prop := Forall (fun e => nrow (snd e)) (srows s).
+(* well-formed column x of a row: narrow cell with a text; wide cell not
+   straddling the right edge and followed by its shadow; shadow right after a
+   wide cell.  Only the visible columns 0..W-1 are constrained. *)
+Definition kind_ok (cf : Z -> cell) (x : Z) : Prop :=
+  wd (cf x) = wof (ch (cf x)) /\
+  ((wd (cf x) = 1 /\ ch (cf x) <> []) \/
+   (wd (cf x) = 2 /\ ch (cf x) <> [] /\ x + 1 <= W - 1 /\ wd (cf (x + 1)) = 0) \/
+   (wd (cf x) = 0 /\ ch (cf x) = [] /\ 1 <= x /\ wd (cf (x - 1)) = 2)).
+Definition wrowf (cf : Z -> cell) : Prop := forall x, 0 <= x <= W - 1 -> kind_ok cf x.
+Definition wrow (r : row) : Prop := wrowf (rget r).
+Definition wscreen (s : screen) : Prop := forall y, wrow (sget (srows s) y).
 
-Lemma ncell_dcell : ncell dcell.
-Proof. split; [reflexivity|discriminate]. Qed.
-
-Lemma rget_ncell : forall r c, nrow r -> ncell (rget r c).
+Lemma wrowf_dcell : wrowf (fun _ => dcell).
 Proof.
-  induction r as [|[i v] r IH]; intros c H; cbn [rget]; [apply ncell_dcell|].
-  inversion H; subst. destruct (i =? c); auto.
+  intros x Hx. unfold kind_ok, dcell; cbn [wd ch]. split; [symmetry; exact Hw32|].
+  left. split; [reflexivity|discriminate].
 Qed.
 
-Lemma sget_nrow : forall rows y, Forall (fun e => nrow (snd e)) rows -> nrow (sget rows y).
+Lemma wrow_nil : wrow [].
+Proof. exact wrowf_dcell. Qed.
+
+Lemma differs_false : forall a b, differs a b = false -> ch a = ch b /\ st a = st b.
 Proof.
-  induction rows as [|[i r] rows IH]; intros y H; cbn [sget]; [constructor|].
-  inversion H; subst. destruct (i =? y); auto.
+  intros a b D. unfold differs in D. apply orb_false_iff in D. destruct D as [D1 D2].
+  apply negb_false_iff in D1. apply negb_false_iff in D2. apply str_eqb_eq in D1. apply Z.eqb_eq in D2. auto.
 Qed.
 
-Lemma shows_same : forall tc a b, differs a b = false -> shows tc b -> shows tc a.
+Lemma cpen_eq : forall a b, ch a = ch b -> st a = st b -> cpen a = cpen b.
+Proof. intros a b E1 E2. unfold cpen, is_transp. rewrite E1, E2. reflexivity. Qed.
+
+(* a non-shadow column depends on its own cell only *)
+Lemma showsx_ns : forall tc cf cf' x,
+  wd (cf x) <> 0 -> ch (cf' x) = ch (cf x) -> st (cf' x) = st (cf x) -> wd (cf' x) = wd (cf x) ->
+  showsx tc cf x -> showsx tc cf' x.
 Proof.
-  intros tc a b D (K & G & P). unfold differs in D. apply orb_false_iff in D. destruct D as [D1 D2].
-  apply negb_false_iff in D1. apply negb_false_iff in D2. apply str_eqb_eq in D1. apply Z.eqb_eq in D2.
-  unfold shows, cpen, is_transp in *. rewrite D1, D2. auto.
+  intros tc cf cf' x N E1 E2 E3 S. unfold showsx in *. rewrite E3.
+  destruct (wd (cf x) =? 0) eqn:Z0; [apply Z.eqb_eq in Z0; contradiction|].
+  rewrite E1, (cpen_eq (cf' x) (cf x) E1 E2). exact S.
+Qed.
+
+Lemma showsx_sh : forall tc cf cf' x,
+  wd (cf x) = 0 -> wd (cf' x) = 0 -> cpen (cf' (x - 1)) = cpen (cf (x - 1)) ->
+  showsx tc cf x -> showsx tc cf' x.
+Proof.
+  intros tc cf cf' x Z1 Z2 E S. unfold showsx in *. rewrite Z1 in S. rewrite Z2.
+  change (0 =? 0) with true in *. cbv iota in *. rewrite E. exact S.
+Qed.
+
+Lemma showsx_ext : forall tc cf cf' x, cf' x = cf x -> cf' (x - 1) = cf (x - 1) -> showsx tc cf x -> showsx tc cf' x.
+Proof. intros tc cf cf' x E1 E2 S. unfold showsx in *. rewrite E1, E2. exact S. Qed.
+
+Lemma showsx_tk1 : forall tc cf x, showsx tc cf x -> tk tc = 1 -> wd (cf x) = 2.
+Proof.
+  intros tc cf x S K. unfold showsx in S. destruct (wd (cf x) =? 0); [destruct S as (S & _); lia|].
+  destruct S as (S & _). destruct (wd (cf x) =? 2) eqn:E; [apply Z.eqb_eq in E; exact E|lia].
+Qed.
+
+Lemma showsx_wide : forall tc cf x, showsx tc cf x -> wd (cf x) = 2 -> tk tc = 1.
+Proof.
+  intros tc cf x S K. unfold showsx in S. rewrite K in S. change (2 =? 0) with false in S.
+  change (2 =? 2) with true in S. cbv iota in S. tauto.
+Qed.
+
+Lemma showsx_ns_tk : forall tc cf x, showsx tc cf x -> wd (cf x) <> 0 -> tk tc <> 2.
+Proof.
+  intros tc cf x S N. unfold showsx in S.
+  destruct (wd (cf x) =? 0) eqn:Z0; [apply Z.eqb_eq in Z0; contradiction|].
+  destruct S as (S & _). destruct (wd (cf x) =? 2); lia.
 Qed.
 
 (* ---- get_max_column_index ---- *)
@@ -118,18 +271,25 @@ Proof. intros r x Hx H. rewrite (gmax_eq0 r) in H. eapply gmax_fold_spec; eauto.
 Lemma gmax_nonneg : forall r, 0 <= gmax tb r.
 Proof. intros r. rewrite (gmax_eq0 r). apply gmax_fold_ge. Qed.
 
-Lemma notcounts_shows_blank : forall c p, blankish c -> pvis p = pvis 0 -> shows (blank p) c.
+Lemma blankish_wd : forall cf x, kind_ok cf x -> blankish (cf x) -> wd (cf x) = 1.
+Proof. intros cf x (K & _) (E & _). rewrite K, E. exact Hw32. Qed.
+
+Lemma notcounts_shows_blank : forall cf x p,
+  blankish (cf x) -> wd (cf x) = 1 -> pvis p = pvis 0 -> showsx (blank p) cf x.
 Proof.
-  intros c p (E & Q) P. unfold shows, blank; cbn [tk tg tp]. rewrite E, str_eqb_refl.
+  intros cf x p (E & Q) Wd P. unfold showsx, blank; cbn [tk tg tp]. rewrite Wd, E.
+  change (1 =? 0) with false. change (1 =? 2) with false. cbv iota. rewrite str_eqb_refl.
   split; [reflexivity|]. split; [reflexivity|]. congruence.
 Qed.
 
-Lemma notcounts_shows_transfer : forall tc a b,
-  blankish a -> blankish b -> shows tc b -> shows tc a.
+Lemma notcounts_shows_transfer : forall tc cf cf' x,
+  blankish (cf x) -> blankish (cf' x) -> wd (cf x) = 1 -> wd (cf' x) = 1 ->
+  showsx tc cf' x -> showsx tc cf x.
 Proof.
-  intros tc a b (Ea & Qa) (Eb & Qb) (K & G & P). unfold shows in *.
-  rewrite Eb, str_eqb_refl in P. rewrite Ea, str_eqb_refl.
-  split; [exact K|]. split; [congruence|]. congruence.
+  intros tc cf cf' x (Ea & Qa) (Eb & Qb) Wa Wb S. unfold showsx in *. rewrite Wb in S. rewrite Wa.
+  change (1 =? 0) with false in *. change (1 =? 2) with false in *. cbv iota in *.
+  rewrite Eb, str_eqb_refl in S. rewrite Ea, str_eqb_refl.
+  destruct S as (K & G & P). split; [exact K|]. split; [congruence|]. congruence.
 Qed.
 
 (* ---- invariants of the diff loop ---- *)
@@ -243,89 +403,80 @@ Proof.
       destruct (nx <? x); [apply nondesc_cub|]. destruct (x <? nx); [apply nondesc_cuf|constructor].
 Qed.
 
-Lemma put_narrow : forall t g,
-  g <> [] -> pend t = false -> aw t = false -> tk (tgrid t (cy t) (cx t)) = 0 ->
-  tgrid (tstep W t (TText g 1)) = upd (tgrid t) (cy t) (cx t) (mkcell g (pen t) 0) /\
-  cx (tstep W t (TText g 1)) = Z.min (cx t + 1) (W - 1) /\
-  cy (tstep W t (TText g 1)) = cy t /\ pen (tstep W t (TText g 1)) = pen t /\
-  aw (tstep W t (TText g 1)) = false /\ pend (tstep W t (TText g 1)) = false /\
-  cvis (tstep W t (TText g 1)) = cvis t /\ undef (tstep W t (TText g 1)) = undef t.
+(* what drawing a glyph of width w at column c of row y does to the grid *)
+Definition DrawnAt (t t' : term) (y c w : Z) (g : list Z) (p : Z) : Prop :=
+  (forall y' x', y' <> y \/ x' < c \/ c + w < x' -> tgrid t' y' x' = tgrid t y' x') /\
+  tgrid t' y c = mkcell g p (if w =? 1 then 0 else 1) /\
+  (w = 2 -> tgrid t' y (c + 1) = mkcell [] p 2) /\
+  tgrid t' y (c + w) = (if dcond (tgrid t) y c w then mkcell [32] (tp (tgrid t y (c + w))) 0
+                        else tgrid t y (c + w)).
+
+Lemma text_ok : forall t0 t c y g w p ls,
+  g <> [] -> (w = 1 \/ w = 2) -> 0 <= c -> 0 <= y -> c + w <= W -> tk (tgrid t y c) <> 2 ->
+  pend t0 = false -> aw t0 = false -> cx t0 = c -> cy t0 = y -> tgrid t0 = tgrid t -> pen t0 = p ->
+  (match ls with Some s => p = apen tb (sattr tb s) | None => True end) ->
+  let t' := tstep W t0 (TText g w) in
+  Inv t' (c + w, y) ls /\ cvis t' = cvis t0 /\ undef t' = undef t0 /\ DrawnAt t t' y c w g p.
 Proof.
-  intros t g Hg Hp Ha Hk. unfold tstep. destruct g as [|g0 g']; [contradiction|].
-  unfold put. change ((1 <? 1) || (2 <? 1)) with false. cbv iota.
-  rewrite Hp, Ha. cbn [andb]. change (1 =? 2) with false. cbn [andb]. cbv iota.
-  unfold boh. rewrite Hk. change (0 =? 1) with false. change (0 =? 2) with false. cbv iota.
-  change (1 =? 1) with true. cbv iota.
-  destruct (cx t + 1 <=? W - 1) eqn:E; cbn [tgrid cx cy pen aw pend cvis undef];
-    repeat split; auto; lia.
+  intros t0 t c y g w p ls Hg Hw Hc Hy Hcw Hk P0 A0 X0 Y0 G0 N0 HL. cbv zeta.
+  destruct (put_ok W t0 g w Hg Hw P0 A0 ltac:(lia)) as (X & Y & N & A & P & V & U & F1 & F2 & F3 & F4).
+  { rewrite G0, X0, Y0. exact Hk. }
+  rewrite X0, Y0, G0, N0 in *.
+  split; [|split; [exact V|split; [exact U|]]].
+  - split; [|split]; [|unfold PenOK; destruct ls; congruence|exact A].
+    unfold CurOK; cbn [fst snd]. split; [exact Y|]. split; [exact X|]. split; [exact P|]. lia.
+  - unfold DrawnAt. split; [exact F1|]. split; [exact F2|]. split; [exact F3|exact F4].
 Qed.
 
 Lemma output_char_ok : forall t c y ls nc ls' ks,
-  Inv t (c, y) ls -> 0 <= c <= W - 1 -> ncell nc -> tk (tgrid t y c) = 0 ->
+  Inv t (c, y) ls -> 0 <= c -> (wd nc = 1 \/ wd nc = 2) -> c + wd nc <= W -> ch nc <> [] ->
+  tk (tgrid t y c) <> 2 ->
   output_char tb ls nc = (ls', ks) ->
-  Inv (trun W t ks) (c + 1, y) ls' /\ cvis (trun W t ks) = cvis t /\ undef (trun W t ks) = undef t /\
-  tgrid (trun W t ks) = upd (tgrid t) y c (mkcell (ch nc) (apen tb (sattr tb (st nc))) 0).
+  Inv (trun W t ks) (c + wd nc, y) ls' /\ cvis (trun W t ks) = cvis t /\ undef (trun W t ks) = undef t /\
+  DrawnAt t (trun W t ks) y c (wd nc) (ch nc) (apen tb (sattr tb (st nc))).
 Proof.
-  intros t c y ls nc ls' ks ((Cy & Cx & Cp & Cxr & Cyr) & PO & AW) Hc (Hw & Hg) Hk O.
-  set (cpen := fun c : cell => apen tb (sattr tb (st c))).
-  change (apen tb (sattr tb (st nc))) with (cpen nc).
+  intros t c y ls nc ls' ks ((Cy & Cx & Cp & Cxr & Cyr) & PO & AW) Hc Hw Hcw Hg Hk O.
   cbn [fst snd] in *. assert (CX : cx t = c) by lia.
-  unfold output_char in O. rewrite Hw in O.
-  assert (FIN : forall t0, pend t0 = false -> aw t0 = false -> cx t0 = c -> cy t0 = y ->
-            tgrid t0 = tgrid t -> pen t0 = cpen nc -> cvis t0 = cvis t -> undef t0 = undef t ->
-            Inv (tstep W t0 (TText (ch nc) 1)) (c + 1, y) (Some (st nc)) /\
-            cvis (tstep W t0 (TText (ch nc) 1)) = cvis t /\ undef (tstep W t0 (TText (ch nc) 1)) = undef t /\
-            tgrid (tstep W t0 (TText (ch nc) 1)) = upd (tgrid t) y c (mkcell (ch nc) (cpen nc) 0)).
-  { intros t0 P0 A0 X0 Y0 G0 N0 V0 U0.
-    destruct (put_narrow t0 (ch nc) Hg P0 A0) as (G & X & Y & N & A & P & V & U).
-    { rewrite G0, X0, Y0. exact Hk. }
-    split; [|split; [|split]].
-    - split; [|split]; [|unfold PenOK, cpen in *; congruence|exact A].
-      unfold CurOK; cbn [fst snd]. split; [congruence|]. split; [lia|]. split; [exact P|]. lia.
-    - congruence.
-    - congruence.
-    - rewrite G, G0, X0, Y0, N0. reflexivity. }
+  unfold output_char in O.
   destruct (match ls with Some s => s =? st nc | None => false end) eqn:SAME.
   - inversion O; subst ls' ks; clear O.
     destruct ls as [s|]; [|discriminate]. apply Z.eqb_eq in SAME. subst s.
-    cbn [trun fold_left]. apply FIN; auto.
+    cbn [trun fold_left].
+    apply (text_ok t t c y (ch nc) (wd nc) (apen tb (sattr tb (st nc))) (Some (st nc))); auto.
   - inversion O; subst ls' ks; clear O.
     destruct (ls_falsy ls || match ls with Some s => negb (sattr tb (st nc) =? sattr tb s) | None => true end) eqn:SET.
-    + cbn [app trun fold_left]. apply FIN; cbn [tstep pend aw cx cy tgrid pen cvis undef]; auto.
-    + cbn [app trun fold_left]. apply FIN; auto.
+    + cbn [app trun fold_left].
+      apply (text_ok (tstep W t (TSGR (apen tb (sattr tb (st nc))))) t c y (ch nc) (wd nc) _ (Some (st nc)));
+        cbn [tstep pend aw cx cy tgrid pen cvis undef]; auto.
+    + cbn [app trun fold_left].
+      apply (text_ok t t c y (ch nc) (wd nc) (apen tb (sattr tb (st nc))) (Some (st nc))); auto.
       apply orb_false_iff in SET. destruct SET as [_ S2].
       destruct ls as [s|]; [|discriminate]. apply negb_false_iff in S2. apply Z.eqb_eq in S2.
-      unfold PenOK, cpen in *. congruence.
+      unfold PenOK in PO. congruence.
 Qed.
 
 (* drawing one cell: output_char, or the blank-in-default-attributes branch *)
 Lemma draw_cell_ok : forall t c y ls nc ls' ks,
-  Inv t (c, y) ls -> 0 <= c <= W - 1 -> ncell nc -> tk (tgrid t y c) = 0 ->
+  Inv t (c, y) ls -> 0 <= c -> (wd nc = 1 \/ wd nc = 2) -> c + wd nc <= W -> ch nc <> [] ->
+  wd nc = wof (ch nc) -> tk (tgrid t y c) <> 2 ->
   (if is_transp nc then (@None Z, [TSGR 0; TText [32] 1]) else output_char tb ls nc) = (ls', ks) ->
-  Inv (trun W t ks) (c + 1, y) ls' /\ cvis (trun W t ks) = cvis t /\ undef (trun W t ks) = undef t /\
-  tgrid (trun W t ks) = upd (tgrid t) y c (mkcell (ch nc) (cpen nc) 0).
+  Inv (trun W t ks) (c + wd nc, y) ls' /\ cvis (trun W t ks) = cvis t /\ undef (trun W t ks) = undef t /\
+  DrawnAt t (trun W t ks) y c (wd nc) (ch nc) (cpen nc).
 Proof.
-  intros t c y ls nc ls' ks HI Hc Hn Hk O.
+  intros t c y ls nc ls' ks HI Hc Hw Hcw Hg Hwof Hk O.
   destruct (is_transp nc) eqn:T.
   - inversion O; subst ls' ks; clear O.
     destruct HI as ((Cy & Cx & Cp & Cxr & Cyr) & PO & AW). cbn [fst snd] in *.
     assert (CX : cx t = c) by lia.
-    unfold is_transp in T. apply andb_true_iff in T. destruct T as [T1 T2].
+    pose proof T as T'. unfold is_transp in T'. apply andb_true_iff in T'. destruct T' as [T1 T2].
     pose proof (str_eqb_eq _ _ T1) as E.
-    cbn [trun fold_left]. set (t0 := tstep W t (TSGR 0)).
-    destruct (put_narrow t0 [32] ltac:(discriminate) Cp AW) as (G & X & Y & N & A & P & V & U).
-    { subst t0; cbn [tstep tgrid cx cy]. rewrite CX, Cy. exact Hk. }
-    split; [|split; [|split]].
-    + split; [|split]; [|exact I|exact A].
-      unfold CurOK; cbn [fst snd]. split; [rewrite Y; subst t0; cbn [tstep cy]; exact Cy|].
-      split; [rewrite X; subst t0; cbn [tstep cx]; lia|]. split; [exact P|]. lia.
-    + rewrite V. reflexivity.
-    + rewrite U. reflexivity.
-    + rewrite G. subst t0; cbn [tstep tgrid cx cy pen]. rewrite CX, Cy, E.
-      unfold cpen, is_transp. rewrite E, str_eqb_refl, T2. reflexivity.
-  - destruct (output_char_ok t c y ls nc ls' ks HI Hc Hn Hk O) as (I2 & V2 & U2 & G2).
+    assert (W1 : wd nc = 1) by (rewrite Hwof, E; exact Hw32).
+    cbn [trun fold_left]. rewrite W1 in *. rewrite E. unfold cpen. rewrite T.
+    apply (text_ok (tstep W t (TSGR 0)) t c y [32] 1 0 None);
+      cbn [tstep pend aw cx cy tgrid pen cvis undef]; auto. discriminate.
+  - destruct (output_char_ok t c y ls nc ls' ks HI Hc Hw Hcw Hg Hk O) as (I2 & V2 & U2 & G2).
     split; [exact I2|]. split; [exact V2|]. split; [exact U2|].
-    rewrite G2. unfold cpen. rewrite T. reflexivity.
+    unfold cpen. rewrite T. exact G2.
 Qed.
 
 Lemma draw_cell_run : forall b1 b2 t c y ls nc ls' ks,
@@ -350,45 +501,136 @@ Proof.
         cbn [app]; [apply TWO|apply ONE; auto].
 Qed.
 
-Lemma upd_other : forall g y x v y' x', (y' <> y \/ x' <> x) -> upd g y x v y' x' = g y' x'.
+(* ---- the column loop ---- *)
+(* the not-yet-visited part of row y (columns >= c) still shows the previous
+   row [pr], except that column c itself may be "damaged": it held the right
+   half of a wide glyph whose left half has just been overwritten (the terminal
+   blanked it); the loop is then certain to redraw it *)
+Definition AtC (t : term) (y : Z) (pr : Z -> cell) (c : Z) : Prop :=
+  (showsx (tgrid t y c) pr c /\ wd (pr c) <> 0) \/ (tk (tgrid t y c) = 0 /\ wd (pr c) = 0).
+Definition Rest (t : term) (y : Z) (pr : Z -> cell) (c : Z) : Prop :=
+  (forall x, c < x <= W - 1 -> showsx (tgrid t y x) pr x) /\ (c <= W - 1 -> AtC t y pr c).
+
+Lemma AtC_tk : forall t y pr c, AtC t y pr c -> tk (tgrid t y c) <> 2.
+Proof. intros t y pr c [(S & N)|(K & _)]; [eapply showsx_ns_tk; eauto|lia]. Qed.
+
+Lemma AtC_tk1 : forall t y pr c, AtC t y pr c -> tk (tgrid t y c) = 1 -> wd (pr c) = 2.
+Proof. intros t y pr c [(S & N)|(K & _)] E; [eapply showsx_tk1; eauto|lia]. Qed.
+
+Lemma kind_shadow : forall cf x, kind_ok cf x -> wd (cf x) = 0 -> 1 <= x /\ wd (cf (x - 1)) = 2.
+Proof. intros cf x (_ & [(A & _)|[(A & _)|(_ & _ & B & C)]]) Z0; lia. Qed.
+
+Lemma kind_wide : forall cf x, kind_ok cf x -> wd (cf x) = 2 -> x + 1 <= W - 1 /\ wd (cf (x + 1)) = 0.
+Proof. intros cf x (_ & [(A & _)|[(_ & _ & B & C)|(A & _)]]) Z0; lia. Qed.
+
+Lemma rest_after_draw : forall t t1 t2 y c w pr g p,
+  wrowf pr -> 0 <= c -> (w = 1 \/ w = 2) -> c + w <= W ->
+  tgrid t1 = tgrid t -> Rest t y pr c -> DrawnAt t1 t2 y c w g p -> Rest t2 y pr (c + w).
 Proof.
-  intros. unfold upd. destruct ((y' =? y) && (x' =? x)) eqn:E; auto.
-  apply andb_true_iff in E. destruct E as [E1 E2]. apply Z.eqb_eq in E1. apply Z.eqb_eq in E2. lia.
+  intros t t1 t2 y c w pr g p Wp Hc Hw Hcw G1 (R1 & R2) (D1 & D2 & D3 & D4).
+  rewrite G1 in *. specialize (R2 ltac:(lia)).
+  split.
+  - intros x Hx. rewrite D1 by lia. apply R1. lia.
+  - intros Hle. unfold AtC. rewrite D4.
+    destruct (Z.eq_dec (wd (pr (c + w))) 0) as [Z0|NZ].
+    + (* the previous row has a shadow at c+w: it is damaged now *)
+      right. split; [|exact Z0].
+      destruct (kind_shadow pr (c + w) (Wp (c + w) ltac:(lia)) Z0) as (_ & WD).
+      assert (DC : dcond (tgrid t) y c w = true).
+      { unfold dcond. destruct Hw as [-> | ->].
+        - change (1 =? 1) with true. cbv iota. replace (c + 1 - 1) with c in WD by lia.
+          destruct R2 as [(S & _)|(_ & Z1)]; [|lia]. rewrite (showsx_wide _ _ _ S WD). reflexivity.
+        - change (2 =? 1) with false. cbv iota. replace (c + 2 - 1) with (c + 1) in WD by lia.
+          rewrite (showsx_wide _ _ _ (R1 (c + 1) ltac:(lia)) WD). rewrite andb_true_r.
+          destruct (tk (tgrid t y c) =? 1) eqn:K1; [|reflexivity]. apply Z.eqb_eq in K1.
+          pose proof (AtC_tk1 t y pr c R2 K1) as W2.
+          destruct (kind_wide pr c (Wp c ltac:(lia)) W2) as (_ & Z1). lia. }
+      rewrite DC. reflexivity.
+    + left. split; [|exact NZ].
+      assert (DC : dcond (tgrid t) y c w = false).
+      { unfold dcond. destruct Hw as [-> | ->].
+        - change (1 =? 1) with true. cbv iota.
+          destruct (tk (tgrid t y c) =? 1) eqn:K1; [|reflexivity]. apply Z.eqb_eq in K1.
+          pose proof (AtC_tk1 t y pr c R2 K1) as W2.
+          destruct (kind_wide pr c (Wp c ltac:(lia)) W2) as (_ & Z1). contradiction.
+        - change (2 =? 1) with false. cbv iota.
+          destruct (tk (tgrid t y (c + 1)) =? 1) eqn:K1; [|apply andb_false_r]. apply Z.eqb_eq in K1.
+          pose proof (showsx_tk1 _ _ _ (R1 (c + 1) ltac:(lia)) K1) as W2.
+          destruct (kind_wide pr (c + 1) (Wp (c + 1) ltac:(lia)) W2) as (_ & Z1).
+          replace (c + 1 + 1) with (c + 2) in Z1 by lia. contradiction. }
+      rewrite DC. apply R1. lia.
 Qed.
 
-Lemma upd_same : forall g y x v, upd g y x v y x = v.
-Proof. intros. unfold upd. rewrite !Z.eqb_refl. reflexivity. Qed.
+Lemma rest_after_skip : forall t y c w pr,
+  wrowf pr -> 0 <= c -> wd (pr c) = w -> (w = 1 \/ w = 2) -> c + w <= W ->
+  Rest t y pr c -> Rest t y pr (c + w).
+Proof.
+  intros t y c w pr Wp Hc Hwd Hw Hcw (R1 & R2).
+  split; [intros x Hx; apply R1; lia|]. intros Hle. left. split; [apply R1; lia|].
+  intros Z0. destruct (kind_shadow pr (c + w) (Wp (c + w) ltac:(lia)) Z0) as (_ & WD).
+  destruct Hw as [-> | ->].
+  - replace (c + 1 - 1) with c in WD by lia. lia.
+  - replace (c + 2 - 1) with (c + 1) in WD by lia.
+    destruct (kind_wide pr c (Wp c ltac:(lia)) Hwd) as (_ & Z1). lia.
+Qed.
 
-Lemma shows_written : forall c, shows (mkcell (ch c) (cpen c) 0) c.
-Proof. intros c. unfold shows; cbn [tk tg tp]. destruct (str_eqb (ch c) [32]); auto. Qed.
+Lemma showsx_written : forall cf x, (wd (cf x) = 1 \/ wd (cf x) = 2) ->
+  showsx (mkcell (ch (cf x)) (cpen (cf x)) (if wd (cf x) =? 1 then 0 else 1)) cf x.
+Proof.
+  intros cf x N. unfold showsx; cbn [tk tg tp].
+  destruct N as [E|E]; rewrite E; cbn [Z.eqb Pos.eqb];
+    (split; [reflexivity|split; [reflexivity|destruct (str_eqb (ch (cf x)) [32]); reflexivity]]).
+Qed.
 
-(* the column loop of row y, from column c on *)
 Lemma cols_ok : forall fuel y nr pr zw nmax c pos ls t pos' ls' ks,
-  0 <= y -> nrow nr -> nmax <= W - 1 -> 0 <= c -> nmax + 1 - c <= Z.of_nat fuel ->
-  Inv t pos ls ->
-  (forall x, c <= x <= nmax -> shows (tgrid t y x) (rget pr x)) ->
+  0 <= y -> wrow nr -> wrow pr -> nmax <= W - 1 -> 0 <= c <= nmax + 1 -> nmax + 1 - c <= Z.of_nat fuel ->
+  (0 <= nmax -> wd (rget nr nmax) <> 2) ->
+  (c = 0 \/ wd (rget nr (c - 1)) <> 2) ->
+  Inv t pos ls -> Rest t y (rget pr) c ->
   cols fuel tb W y nr pr zw nmax c pos ls = (pos', ls', ks) ->
   Inv (trun W t ks) pos' ls' /\ cvis (trun W t ks) = cvis t /\ undef (trun W t ks) = undef t /\
-  (forall y' x, y' <> y \/ x < c \/ nmax < x -> tgrid (trun W t ks) y' x = tgrid t y' x) /\
-  (forall x, c <= x <= nmax -> shows (tgrid (trun W t ks) y x) (rget nr x)) /\
+  (forall y' x, y' <> y \/ x < c -> tgrid (trun W t ks) y' x = tgrid t y' x) /\
+  (forall x, c <= x <= nmax -> showsx (tgrid (trun W t ks) y x) (rget nr) x) /\
+  Rest (trun W t ks) y (rget pr) (nmax + 1) /\
   okrun (Z.max (snd pos) y) y W t ks.
 Proof.
-  induction fuel as [|f IH]; intros y nr pr zw nmax c pos ls t pos' ls' ks Hy Hn Hm Hc Hf HI HS C.
+  induction fuel as [|f IH]; intros y nr pr zw nmax c pos ls t pos' ls' ks Hy Hn Hp Hm Hc Hf Hlast Hnsh HI HR C.
   - cbn [cols] in C. inversion C; subst. cbn [trun fold_left].
+    assert (c = nmax + 1) by lia. subst c.
     split; [exact HI|]. split; [reflexivity|]. split; [reflexivity|]. split; [auto|].
-    split; [intros x Hx; lia|exact I].
+    split; [intros x Hx; lia|]. split; [exact HR|exact I].
   - cbn [cols] in C. destruct (nmax <? c) eqn:E.
     + inversion C; subst. cbn [trun fold_left].
+      assert (c = nmax + 1) by lia. subst c.
       split; [exact HI|]. split; [reflexivity|]. split; [reflexivity|]. split; [auto|].
-      split; [intros x Hx; lia|exact I].
-    + pose proof (rget_ncell nr c Hn) as (Hw & Hg).
-      rewrite Hw in C. change (1 =? 0) with false in C. cbv iota in C.
-      destruct (differs (rget nr c) (rget pr c)) eqn:D.
+      split; [intros x Hx; lia|]. split; [exact HR|exact I].
+    + assert (Hc' : 0 <= c <= nmax) by lia.
+      pose proof (Hn c ltac:(lia)) as KN. pose proof (Hp c ltac:(lia)) as KP.
+      set (nc := rget nr c) in *. set (w := wd nc) in *.
+      assert (NSH : w <> 0).
+      { intros Z0. destruct (kind_shadow (rget nr) c KN Z0) as (C1 & C2). destruct Hnsh; [lia|contradiction]. }
+      assert (Hw : w = 1 \/ w = 2).
+      { destruct KN as (_ & [(A & _)|[(A & _)|(A & _)]]); fold nc in A; fold w in A; auto. contradiction. }
+      assert (Hg : ch nc <> []).
+      { destruct KN as (_ & [(_ & A)|[(_ & A & _)|(A & _)]]); auto. }
+      assert (Hwof : wd nc = wof (ch nc)) by (destruct KN as (A & _); exact A).
+      assert (Hcw : c + w <= nmax + 1).
+      { destruct Hw as [E1|E2]; [lia|].
+        destruct (Z.eq_dec c nmax) as [->|Ne]; [|lia]. exfalso. apply (Hlast ltac:(lia)). exact E2. }
+      assert (CW : (if w =? 0 then 1 else w) = w) by (destruct Hw as [-> | ->]; reflexivity).
+      rewrite CW in C.
+      assert (Hnsh2 : c + w = 0 \/ wd (rget nr (c + w - 1)) <> 2).
+      { right. destruct Hw as [E1|E2].
+        - rewrite E1. replace (c + 1 - 1) with c by lia. fold nc. fold w. lia.
+        - rewrite E2. replace (c + 2 - 1) with (c + 1) by lia.
+          destruct (kind_wide (rget nr) c KN E2) as (_ & Z1). lia. }
+      pose proof HR as (R1 & R2). specialize (R2 ltac:(lia)).
+      destruct (differs nc (rget pr c)) eqn:D.
       * destruct pos as [px py].
         destruct (move_cursor W (px, py) ls (c, y)) as [ls1 k1] eqn:M.
-        destruct (if is_transp (rget nr c) then (@None Z, [TSGR 0; TText [32] 1])
-                  else output_char tb ls1 (rget nr c)) as [ls2 k3] eqn:O.
-        destruct (cols f tb W y nr pr zw nmax (c + 1) (c + 1, y) ls2) as [[p2 l2] k4] eqn:C2.
+        destruct (if is_transp nc then (@None Z, [TSGR 0; TText [32] 1])
+                  else output_char tb ls1 nc) as [ls2 k3] eqn:O.
+        destruct (cols f tb W y nr pr zw nmax (c + w) (c + w, y) ls2) as [[p2 l2] k4] eqn:C2.
         inversion C; subst pos' ls' ks; clear C.
         rewrite !trun_app.
         destruct (move_cursor_ok t px py ls c y ls1 k1 HI ltac:(lia) Hy M) as (I1 & (G1 & A1 & V1 & U1) & _).
@@ -396,36 +638,53 @@ Proof.
         assert (Z1 : trun W t1 (match zget zw y c with Some i => [TRaw i] | None => [] end) = t1)
           by (destruct (zget zw y c); reflexivity).
         rewrite Z1.
-        assert (K1 : tk (tgrid t1 y c) = 0) by (rewrite G1; apply (HS c); lia).
-        destruct (draw_cell_ok t1 c y ls1 (rget nr c) ls2 k3 I1 ltac:(lia) (conj Hw Hg) K1 O)
-          as (I2 & V2 & U2 & G2).
+        assert (K1 : tk (tgrid t1 y c) <> 2) by (rewrite G1; eapply AtC_tk; exact R2).
+        destruct (draw_cell_ok t1 c y ls1 nc ls2 k3 I1 ltac:(lia) Hw ltac:(fold w; lia) Hg Hwof K1 O)
+          as (I2 & V2 & U2 & DA).
+        fold w in I2, DA.
         set (t2 := trun W t1 k3) in *.
-        assert (HS2 : forall x, c + 1 <= x <= nmax -> shows (tgrid t2 y x) (rget pr x)).
-        { intros x Hx. rewrite G2, upd_other by lia. rewrite G1. apply HS. lia. }
-        destruct (IH y nr pr zw nmax (c + 1) (c + 1, y) ls2 t2 p2 l2 k4 Hy Hn Hm ltac:(lia) ltac:(lia) I2 HS2 C2)
-          as (I3 & V3 & U3 & G3 & S3 & O3).
-        split; [exact I3|]. split; [congruence|]. split; [congruence|]. split; [|split].
-        { intros y' x Hx. rewrite G3 by lia. rewrite G2, upd_other by lia. rewrite G1. reflexivity. }
+        pose proof (rest_after_draw t t1 t2 y c w (rget pr) (ch nc) (cpen nc) Hp ltac:(lia) Hw ltac:(lia) G1 HR DA) as HR2.
+        destruct (IH y nr pr zw nmax (c + w) (c + w, y) ls2 t2 p2 l2 k4 Hy Hn Hp Hm ltac:(lia) ltac:(lia) Hlast Hnsh2 I2 HR2 C2)
+          as (I3 & V3 & U3 & G3 & S3 & R3 & O3).
+        destruct DA as (D1 & D2 & D3 & D4).
+        split; [exact I3|]. split; [congruence|]. split; [congruence|]. split; [|split; [|split]].
+        { intros y' x Hx. rewrite G3 by lia. rewrite D1 by lia. rewrite G1. reflexivity. }
         { intros x Hx. destruct (Z.eq_dec x c) as [->|Ne].
-          - rewrite G3 by lia. rewrite G2, upd_same. apply shows_written.
-          - apply S3. lia. }
+          - rewrite G3 by lia. rewrite D2. apply showsx_written. exact Hw.
+          - destruct (Z_lt_le_dec x (c + w)) as [Lt|Ge]; [|apply S3; lia].
+            assert (w = 2 /\ x = c + 1) by lia. destruct H as (E2 & ->).
+            rewrite G3 by lia. rewrite (D3 E2).
+            destruct (kind_wide (rget nr) c KN E2) as (_ & Z0).
+            unfold showsx. rewrite Z0. change (0 =? 0) with true. cbv iota. cbn [tk tg tp].
+            replace (c + 1 - 1) with c by lia. auto. }
+        { exact R3. }
         { cbn [fst snd] in *. destruct I1 as ((Cy1 & _) & _). cbn [snd] in Cy1.
-          apply okrun_app. split; [eapply move_cursor_run; eauto; lia|]. fold t1.
+          apply okrun_app. split; [apply (move_cursor_run y t px py ls c y ls1 k1); [exact HI| | |exact M]; lia|]. fold t1.
           apply okrun_app. split.
           - destruct (zget zw y c); [|exact I]. cbn [okrun tstep cy is_write].
             split; [lia|]. split; [discriminate|exact I].
           - rewrite Z1. apply okrun_app. split.
             + eapply draw_cell_run; [exact (conj (conj Cy1 (proj2 (proj1 I1'))) (proj2 I1'))| | |exact O]; lia.
             + fold t2. eapply okrun_mono; [| |exact O3]; lia. }
-      * assert (HS2 : forall x, c + 1 <= x <= nmax -> shows (tgrid t y x) (rget pr x))
-          by (intros x Hx; apply HS; lia).
-        destruct (IH y nr pr zw nmax (c + 1) pos ls t pos' ls' ks Hy Hn Hm ltac:(lia) ltac:(lia) HI HS2 C)
-          as (I3 & V3 & U3 & G3 & S3 & O3).
-        split; [exact I3|]. split; [exact V3|]. split; [exact U3|]. split; [|split].
+      * destruct (differs_false _ _ D) as (E1 & E2).
+        assert (WP : wd (rget pr c) = w).
+        { destruct KP as (A & _). rewrite A, <- E1. symmetry. exact Hwof. }
+        assert (SC : showsx (tgrid t y c) (rget pr) c) by (destruct R2 as [(S & _)|(_ & Z0)]; [exact S|lia]).
+        pose proof (rest_after_skip t y c w (rget pr) Hp ltac:(lia) WP Hw ltac:(lia) HR) as HR2.
+        destruct (IH y nr pr zw nmax (c + w) pos ls t pos' ls' ks Hy Hn Hp Hm ltac:(lia) ltac:(lia) Hlast Hnsh2 HI HR2 C)
+          as (I3 & V3 & U3 & G3 & S3 & R3 & O3).
+        split; [exact I3|]. split; [exact V3|]. split; [exact U3|]. split; [|split; [|split]].
         { intros y' x Hx. apply G3. lia. }
         { intros x Hx. destruct (Z.eq_dec x c) as [->|Ne].
-          - rewrite G3 by lia. eapply shows_same; [exact D|]. apply HS. lia.
-          - apply S3. lia. }
+          - rewrite G3 by lia. apply (showsx_ns _ (rget pr)); auto; try lia.
+          - destruct (Z_lt_le_dec x (c + w)) as [Lt|Ge]; [|apply S3; lia].
+            assert (w = 2 /\ x = c + 1) by lia. destruct H as (W2 & ->).
+            rewrite G3 by lia.
+            destruct (kind_wide (rget nr) c KN W2) as (_ & Z0).
+            destruct (kind_wide (rget pr) c KP ltac:(lia)) as (_ & Z0').
+            apply (showsx_sh _ (rget pr)); auto; [|apply R1; lia].
+            replace (c + 1 - 1) with c by lia. apply cpen_eq; auto. }
+        { exact R3. }
         { exact O3. }
 Qed.
 
@@ -434,31 +693,52 @@ Definition scell (s : screen) (y x : Z) : cell := rget (sget (srows s) y) x.
 Lemma Zmin_cases : forall a b, (Z.min a b = a /\ a <= b) \/ (Z.min a b = b /\ b <= a).
 Proof. intros; lia. Qed.
 
+(* the last counting column never holds the left half of a wide cell: its
+   shadow would count too *)
+Lemma nmax_not_wide : forall r, wrow r ->
+  wd (rget r (Z.min (W - 1) (gmax tb r))) <> 2.
+Proof.
+  intros r Hr E. pose proof (gmax_nonneg r) as G.
+  set (n := Z.min (W - 1) (gmax tb r)) in *.
+  destruct (kind_wide (rget r) n (Hr n ltac:(subst n; lia)) E) as (Le & Z0).
+  assert (GM : gmax tb r < n + 1) by (subst n; lia).
+  destruct (gmax_spec r (n + 1) ltac:(lia) GM) as (B & _).
+  pose proof (blankish_wd (rget r) (n + 1) (Hr (n + 1) ltac:(lia)) (gmax_spec r (n + 1) ltac:(lia) GM)). lia.
+Qed.
+
 (* one row: column loop, then the trailing trim *)
 Lemma do_row_ok : forall y scr prev pos ls t pos' ls' ks,
-  0 <= y -> nscreen scr -> Inv t pos ls ->
-  (forall x, 0 <= x < W -> shows (tgrid t y x) (scell prev y x)) ->
+  0 <= y -> wscreen scr -> wscreen prev -> Inv t pos ls ->
+  (forall x, 0 <= x < W -> showsx (tgrid t y x) (scell prev y) x) ->
   do_row tb W y scr prev pos ls = (pos', ls', ks) ->
   Inv (trun W t ks) pos' ls' /\ cvis (trun W t ks) = cvis t /\ undef (trun W t ks) = undef t /\
   (forall y' x, y' <> y -> tgrid (trun W t ks) y' x = tgrid t y' x) /\
-  (forall x, 0 <= x < W -> shows (tgrid (trun W t ks) y x) (scell scr y x)) /\
+  (forall x, 0 <= x < W -> showsx (tgrid (trun W t ks) y x) (scell scr y) x) /\
   okrun (Z.max (snd pos) y) y W t ks.
 Proof.
-  intros y scr prev pos ls t pos' ls' ks Hy Hn HI HS R.
+  intros y scr prev pos ls t pos' ls' ks Hy Hn Hpv' HI HS R.
   unfold do_row in R.
   set (nr := sget (srows scr) y) in *. set (pr := sget (srows prev) y) in *.
+  change (scell prev y) with (fun x => rget pr x) in HS. change (scell scr y) with (fun x => rget nr x).
   pose proof (gmax_nonneg nr) as Gn. pose proof (gmax_nonneg pr) as Gp.
+  pose proof (nmax_not_wide nr (Hn y)) as NW.
   set (nmax := Z.min (W - 1) (gmax tb nr)) in *. set (pmax := Z.min (W - 1) (gmax tb pr)) in *.
-  assert (Hnr : nrow nr) by (apply sget_nrow; exact Hn).
+  assert (Hnr : wrow nr) by (apply Hn). assert (Hpr : wrow pr) by (apply Hpv').
   destruct (cols (Z.to_nat (nmax + 1)) tb W y nr pr (szwe scr) nmax 0 pos ls) as [[pos1 ls1] k1] eqn:C.
   assert (N0 : 0 <= nmax <= W - 1) by (subst nmax; lia).
-  assert (HS0 : forall x, 0 <= x <= nmax -> shows (tgrid t y x) (rget pr x)) by (intros x Hx; apply HS; lia).
-  destruct (cols_ok (Z.to_nat (nmax + 1)) y nr pr (szwe scr) nmax 0 pos ls t pos1 ls1 k1 Hy Hnr ltac:(lia) ltac:(lia) ltac:(lia) HI HS0 C)
-    as (I1 & V1 & U1 & G1 & S1 & O1).
+  assert (HR0 : Rest t y (rget pr) 0).
+  { split; [intros x Hx; apply (HS x); lia|]. intros _. left. split; [apply (HS 0); lia|].
+    intros Z0. destruct (kind_shadow (rget pr) 0 (Hpr 0 ltac:(lia)) Z0). lia. }
+  destruct (cols_ok (Z.to_nat (nmax + 1)) y nr pr (szwe scr) nmax 0 pos ls t pos1 ls1 k1 Hy Hnr Hpr
+              ltac:(lia) ltac:(lia) ltac:(lia) ltac:(intros _; exact NW) ltac:(left; reflexivity) HI HR0 C)
+    as (I1 & V1 & U1 & G1 & S1 & (R1a & R1b) & O1).
   set (t1 := trun W t k1) in *.
   assert (P1 : snd pos1 <= Z.max (snd pos) y).
   { destruct I1 as ((C1 & _) & _). rewrite <- C1. apply okrun_final with (b2 := y); [|exact O1].
     destruct HI as ((C0 & _) & _). lia. }
+  assert (BL : forall r x, wrow r -> 0 <= x <= W - 1 -> gmax tb r < x -> blankish (rget r x) /\ wd (rget r x) = 1).
+  { intros r x Hr Hx Hg. pose proof (gmax_spec r x ltac:(lia) Hg) as B. split; [exact B|].
+    apply blankish_wd; [apply Hr; lia|exact B]. }
   destruct (nmax <? pmax) eqn:E.
   - destruct pos1 as [p1x p1y].
     destruct (move_cursor W (p1x, p1y) ls1 (nmax + 1, y)) as [lsx k2] eqn:M.
@@ -468,8 +748,8 @@ Proof.
       as (((Cy & Cx & Cp & Cxr & Cyr) & _ & AW2) & (G2 & A2 & V2 & U2) & X2 & _).
     rewrite !trun_app. fold t1. set (t2 := trun W t1 k2) in *. cbn [fst snd] in *.
     cbn [trun fold_left tstep].
-    assert (K : tk (tgrid t2 y (nmax + 1)) = 0).
-    { rewrite G2, G1 by lia. apply (HS (nmax + 1)). lia. }
+    assert (K : (tk (tgrid t2 y (nmax + 1)) =? 2) = false).
+    { apply Z.eqb_neq. rewrite G2. eapply AtC_tk. apply R1b. lia. }
     assert (GM : nmax = gmax tb nr) by (subst nmax; lia).
     split; [|split; [|split; [|split; [|split]]]]; cycle 5.
     { apply okrun_app. split; [exact O1|]. fold t1. apply okrun_app. split.
@@ -481,14 +761,15 @@ Proof.
     + cbn [cvis]. congruence.
     + cbn [undef]. congruence.
     + intros y' x Hne. cbn [tgrid]. unfold erase_line; cbn [tgrid cx cy pen].
-      rewrite Cy, X2, K. change (0 =? 2) with false. cbv iota.
+      rewrite Cy, X2, K.
       destruct ((y' =? y) && (nmax + 1 <=? x)) eqn:B.
       * apply andb_true_iff in B. destruct B as [B _]. apply Z.eqb_eq in B. lia.
       * rewrite G2. apply G1. auto.
     + intros x Hx. cbn [tgrid]. unfold erase_line; cbn [tgrid cx cy pen].
-      rewrite Cy, X2, K. change (0 =? 2) with false. cbv iota. rewrite Z.eqb_refl. cbn [andb].
+      rewrite Cy, X2, K. rewrite Z.eqb_refl. cbn [andb].
       destruct (nmax + 1 <=? x) eqn:B.
-      * apply notcounts_shows_blank; [|reflexivity]. apply gmax_spec; [lia|]. change (gmax tb nr < x). lia.
+      * destruct (BL nr x Hnr ltac:(lia) ltac:(lia)) as (B1 & B2).
+        apply (notcounts_shows_blank (fun x => rget nr x)); auto.
       * rewrite G2. apply S1. lia.
   - inversion R; subst pos' ls' ks; clear R. fold t1.
     split; [exact I1|]. split; [exact V1|]. split; [exact U1|]. split; [|split]; cycle 2.
@@ -496,25 +777,25 @@ Proof.
     + intros y' x Hne. apply G1. auto.
     + intros x Hx. destruct (x <=? nmax) eqn:B.
       * apply S1. lia.
-      * rewrite G1 by lia.
-        assert (GM : nmax = gmax tb nr) by (subst nmax; lia).
+      * assert (GM : nmax = gmax tb nr) by (subst nmax; lia).
         assert (GP : pmax = gmax tb pr) by (subst pmax nmax; lia).
-        apply (notcounts_shows_transfer _ _ (rget pr x)).
-        -- apply gmax_spec; [lia|]. change (gmax tb nr < x). lia.
-        -- apply gmax_spec; [lia|]. lia.
-        -- apply HS. lia.
+        destruct (BL nr x Hnr ltac:(lia) ltac:(lia)) as (B1 & B2).
+        destruct (BL pr x Hpr ltac:(lia) ltac:(lia)) as (B3 & B4).
+        apply (notcounts_shows_transfer _ (fun x => rget nr x) (fun x => rget pr x)); auto.
+        destruct (Z.eq_dec x (nmax + 1)) as [->|Ne]; [|apply R1a; lia].
+        destruct (R1b ltac:(lia)) as [(S & _)|(_ & Z0)]; [exact S|lia].
 Qed.
 
 Lemma rows_loop_ok : forall n y scr prev pos ls t pos' ls' ks,
-  0 <= y -> nscreen scr -> Inv t pos ls ->
-  (forall y' x, y <= y' < y + Z.of_nat n -> 0 <= x < W -> shows (tgrid t y' x) (scell prev y' x)) ->
+  0 <= y -> wscreen scr -> wscreen prev -> Inv t pos ls ->
+  (forall y' x, y <= y' < y + Z.of_nat n -> 0 <= x < W -> showsx (tgrid t y' x) (scell prev y') x) ->
   rows_loop n tb W y scr prev pos ls = (pos', ls', ks) ->
   Inv (trun W t ks) pos' ls' /\ cvis (trun W t ks) = cvis t /\ undef (trun W t ks) = undef t /\
   (forall y' x, y' < y \/ y + Z.of_nat n <= y' -> tgrid (trun W t ks) y' x = tgrid t y' x) /\
-  (forall y' x, y <= y' < y + Z.of_nat n -> 0 <= x < W -> shows (tgrid (trun W t ks) y' x) (scell scr y' x)) /\
+  (forall y' x, y <= y' < y + Z.of_nat n -> 0 <= x < W -> showsx (tgrid (trun W t ks) y' x) (scell scr y') x) /\
   okrun (Z.max (snd pos) (y + Z.of_nat n - 1)) (y + Z.of_nat n - 1) W t ks.
 Proof.
-  induction n as [|n IH]; intros y scr prev pos ls t pos' ls' ks Hy Hn HI HS R.
+  induction n as [|n IH]; intros y scr prev pos ls t pos' ls' ks Hy Hn Hp HI HS R.
   - cbn [rows_loop] in R. inversion R; subst. cbn [trun fold_left].
     split; [exact HI|]. split; [reflexivity|]. split; [reflexivity|]. split; [auto|].
     split; [intros; lia|exact I].
@@ -522,12 +803,12 @@ Proof.
     destruct (do_row tb W y scr prev pos ls) as [[pos1 ls1] k1] eqn:D.
     destruct (rows_loop n tb W (y + 1) scr prev pos1 ls1) as [[pos2 ls2] k2] eqn:R2.
     inversion R; subst pos' ls' ks; clear R. rewrite trun_app.
-    destruct (do_row_ok y scr prev pos ls t pos1 ls1 k1 Hy Hn HI ltac:(intros x Hx; apply HS; lia) D)
+    destruct (do_row_ok y scr prev pos ls t pos1 ls1 k1 Hy Hn Hp HI ltac:(intros x Hx; apply HS; lia) D)
       as (I1 & V1 & U1 & G1 & S1 & O1).
     set (t1 := trun W t k1) in *.
-    assert (HS1 : forall y' x, y + 1 <= y' < y + 1 + Z.of_nat n -> 0 <= x < W -> shows (tgrid t1 y' x) (scell prev y' x)).
+    assert (HS1 : forall y' x, y + 1 <= y' < y + 1 + Z.of_nat n -> 0 <= x < W -> showsx (tgrid t1 y' x) (scell prev y') x).
     { intros y' x Hy' Hx. rewrite G1 by lia. apply HS; lia. }
-    destruct (IH (y + 1) scr prev pos1 ls1 t1 pos2 ls2 k2 ltac:(lia) Hn I1 HS1 R2) as (I2 & V2 & U2 & G2 & S2 & O2).
+    destruct (IH (y + 1) scr prev pos1 ls1 t1 pos2 ls2 k2 ltac:(lia) Hn Hp I1 HS1 R2) as (I2 & V2 & U2 & G2 & S2 & O2).
     assert (P1 : snd pos1 <= Z.max (snd pos) y).
     { destruct I1 as ((C1 & _) & _). rewrite <- C1. apply okrun_final with (b2 := y); [|exact O1].
       destruct HI as ((C0 & _) & _). lia. }
@@ -544,18 +825,34 @@ Qed.
 (* Screen.height may exceed the terminal height H (a float reaching below the
    last row): only rows < H are drawn.  The cursor is inside the terminal. *)
 Definition wf_screen (H : Z) (s : screen) : Prop :=
-  nscreen s /\ 0 <= sh s /\ (forall y, sh s <= y -> sget (srows s) y = []) /\
+  wscreen s /\ 0 <= sh s /\ (forall y, sh s <= y -> sget (srows s) y = []) /\
   0 <= scx s <= W - 1 /\ 0 <= scy s < Z.max H 1.
 
 (* the part of the screen that fits the terminal *)
 Definition vcell (H : Z) (s : screen) (y x : Z) : cell := if y <? H then scell s y x else dcell.
 
 Definition Shows (H : Z) (t : term) (s : screen) : Prop :=
-  forall y x, 0 <= y -> 0 <= x < W -> shows (tgrid t y x) (vcell H s y x).
+  forall y x, 0 <= y -> 0 <= x < W -> showsx (tgrid t y x) (vcell H s y) x.
 
-Lemma shows_blank_dcell : shows (blank 0) dcell.
+Lemma shows_blank_dcell : forall x, showsx (blank 0) (fun _ => dcell) x.
 Proof.
-  apply notcounts_shows_blank; [apply blankish_dcell|reflexivity].
+  intros x. apply (notcounts_shows_blank (fun _ => dcell)); [apply blankish_dcell|reflexivity|reflexivity].
+Qed.
+
+Lemma vcell_lt : forall H s y x, y < H -> vcell H s y x = scell s y x.
+Proof. intros H s y x L. unfold vcell. destruct (y <? H) eqn:E; [reflexivity|lia]. Qed.
+
+Lemma vcell_ge : forall H s y x, H <= y -> vcell H s y x = dcell.
+Proof. intros H s y x L. unfold vcell. destruct (y <? H) eqn:E; [lia|reflexivity]. Qed.
+
+Lemma vcell_empty : forall H y x, vcell H empty_screen y x = dcell.
+Proof. intros H y x. unfold vcell. destruct (y <? H); reflexivity. Qed.
+
+Lemma showsx_vs : forall H s tc y x, y < H -> showsx tc (vcell H s y) x <-> showsx tc (scell s y) x.
+Proof.
+  intros H s tc y x L. split; intros S.
+  - apply (showsx_ext _ (vcell H s y)); [symmetry; apply vcell_lt; exact L|symmetry; apply vcell_lt; exact L|exact S].
+  - apply (showsx_ext _ (scell s y)); [apply vcell_lt; exact L|apply vcell_lt; exact L|exact S].
 Qed.
 
 Lemma scell_beyond : forall H s y x, wf_screen H s -> sh s <= y -> scell s y x = dcell.
@@ -578,27 +875,28 @@ Lemma diff_body_ok : forall H fs done scr prev pos ls t pos' cv' ks,
   cx t' = fst pos' /\ cy t' = snd pos' /\
   (done = false -> pos' = (scx scr, scy scr) /\ Shows H t' scr) /\
   (done = true -> pos' = (0, cur_h) /\
-     (forall y x, 0 <= y < cur_h -> 0 <= x < W -> shows (tgrid t' y x) (scell scr y x)) /\
+     (forall y x, 0 <= y < cur_h -> 0 <= x < W -> showsx (tgrid t' y x) (scell scr y) x) /\
      (forall y x, cur_h <= y -> 0 <= x -> tgrid t' y x = blank 0)).
 Proof.
   intros H fs done scr prev pos ls t pos' cv' ks HH Ws Wp HI HS CV HD D.
-  pose proof Ws as (Ns & Hs & Es & Cxs & Cys). pose proof Wp as (_ & Hp & Ep & _).
+  pose proof Ws as (Ns & Hs & Es & Cxs & Cys). pose proof Wp as (Np & Hp & Ep & _).
   unfold diff_body in D.
   set (cur_h := Z.min (sh scr) H) in *.
   set (rc := Z.min (Z.max (sh scr) (sh prev)) H) in *.
   destruct (rows_loop (Z.to_nat rc) tb W 0 scr prev pos ls) as [[pos1 ls1] k1] eqn:R.
-  destruct (rows_loop_ok (Z.to_nat rc) 0 scr prev pos ls t pos1 ls1 k1 ltac:(lia) Ns HI
-              ltac:(intros y' x Hy' Hx; specialize (HS y' x ltac:(lia) Hx); unfold vcell in HS;
-                    destruct (y' <? H) eqn:BH; [exact HS|subst rc; lia]) R) as (I1 & V1 & U1 & G1 & S1 & O1).
+  destruct (rows_loop_ok (Z.to_nat rc) 0 scr prev pos ls t pos1 ls1 k1 ltac:(lia) Ns Np HI
+              ltac:(intros y' x Hy' Hx; specialize (HS y' x ltac:(lia) Hx);
+                    apply (showsx_vs H prev) in HS; [exact HS|subst rc; lia]) R) as (I1 & V1 & U1 & G1 & S1 & O1).
   set (t1 := trun W t k1) in *.
   assert (RC : rc <= H /\ (rc < H -> rc = Z.max (sh scr) (sh prev))) by (subst rc; lia).
   assert (SH1 : Shows H t1 scr).
   { intros y x Hy Hx. destruct (y <? rc) eqn:B.
-    - unfold vcell. destruct (y <? H) eqn:BH; [|lia]. apply S1; lia.
-    - rewrite G1 by lia. specialize (HS y x Hy Hx). unfold vcell in *.
-      destruct (y <? H) eqn:BH; [|exact HS].
-      rewrite (scell_beyond H scr) by (auto; lia).
-      rewrite (scell_beyond H prev y x) in HS by (auto; lia). exact HS. }
+    - apply (showsx_vs H scr); [lia|]. apply S1; lia.
+    - rewrite G1 by lia. specialize (HS y x Hy Hx).
+      assert (VE : forall x', vcell H scr y x' = vcell H prev y x').
+      { intros x'. unfold vcell. destruct (y <? H) eqn:BH; [|reflexivity].
+        rewrite (scell_beyond H scr) by (auto; lia). rewrite (scell_beyond H prev) by (auto; lia). reflexivity. }
+      apply (showsx_ext _ (vcell H prev y)); [apply VE|apply VE|exact HS]. }
   (* reserve vertical space *)
   set (mv := if sh prev <? cur_h
              then let '(l, t) := move_cursor W pos1 ls1 (0, cur_h - 1) in ((0, cur_h - 1), l, t)
@@ -679,8 +977,8 @@ Proof.
       { intros g <-. destruct (tk (tgrid t3 (cy t3) (cx t3)) =? 2); [|reflexivity].
         unfold boh. destruct (tk (tgrid t3 (cy t3) (cx t3)) =? 1); [apply upd_other; lia|].
         destruct (tk (tgrid t3 (cy t3) (cx t3)) =? 2); [apply upd_other; lia|reflexivity]. }
-      rewrite (GG _ eq_refl). rewrite G3, G2. specialize (SH1 y x ltac:(lia) Hx). unfold vcell in SH1.
-      destruct (y <? H) eqn:BH; [exact SH1|lia].
+      rewrite (GG _ eq_refl). rewrite G3, G2. specialize (SH1 y x ltac:(lia) Hx).
+      apply (showsx_vs H scr) in SH1; [exact SH1|lia].
     + intros y x Hy Hx. unfold erase_down, erase_line. rewrite PEN3.
       destruct (cy t3 <? y) eqn:B1; [reflexivity|].
       assert (y = cy t3) by lia. subst y. rewrite Z.eqb_refl. rewrite X3.
@@ -724,8 +1022,8 @@ Definition cvrel (cv : option bool) (t : term) : Prop :=
 
 Lemma wf_empty : forall H, 0 <= H -> wf_screen H empty_screen.
 Proof.
-  intros H HH. unfold wf_screen, empty_screen, nscreen; cbn [srows sh scx scy].
-  split; [constructor|]. split; [lia|]. split; [reflexivity|]. lia.
+  intros H HH. unfold wf_screen, empty_screen; cbn [srows sh scx scy].
+  split; [intros y; apply wrow_nil|]. split; [lia|]. split; [reflexivity|]. lia.
 Qed.
 
 (* what a render establishes *)
@@ -735,7 +1033,7 @@ Definition Rendered (H : Z) (fs done : bool) (scr : screen) (t : term) (pos : Z 
   cvis t = sshow scr /\ cv = Some (sshow scr) /\ cx t = fst pos /\ cy t = snd pos /\
   (done = false -> pos = (scx scr, scy scr) /\ Shows H t scr) /\
   (done = true -> pos = (0, cur_h) /\
-     (forall y x, 0 <= y < cur_h -> 0 <= x < W -> shows (tgrid t y x) (scell scr y x)) /\
+     (forall y x, 0 <= y < cur_h -> 0 <= x < W -> showsx (tgrid t y x) (scell scr y) x) /\
      (forall y x, cur_h <= y -> 0 <= x -> tgrid t y x = blank 0)).
 
 Lemma screen_diff_ok : forall H fs done scr prev pos prevW cv t pos' cv' ks,
@@ -813,8 +1111,7 @@ Proof.
     assert (Sc : Shows H tc empty_screen).
     { intros y x Hy Hx. rewrite Gc. unfold erase_down, erase_line. cbn [tstep cx cy pen tgrid].
       rewrite Xb, Cyb.
-      assert (VE : vcell H empty_screen y x = dcell) by (unfold vcell; destruct (y <? H); reflexivity).
-      rewrite VE.
+      apply (showsx_ext _ (fun _ => dcell)); [apply vcell_empty|apply vcell_empty|].
       destruct (0 <? y) eqn:B; [apply shows_blank_dcell|].
       assert (y = 0) by lia. subst y. rewrite Z.eqb_refl. destruct (0 <=? x) eqn:B2; [|lia].
       cbn [andb]. apply shows_blank_dcell. }
